@@ -29,7 +29,19 @@ impl Outcome {
     }
 }
 
+thread_local! {
+    /// distinct inputs (hash of module texts + pointer size) this run has built, and how many of them parsed
+    static DISTINCT: std::cell::RefCell<(std::collections::HashSet<u64>, usize, Vec<String>)> = std::cell::RefCell::new((std::collections::HashSet::new(), 0, vec![]));
+}
 pub fn build_modules(mods: &[(&str, String)], ptr: usize) -> Outcome {
+    {
+        use std::hash::{Hash, Hasher};
+        let mut h = std::collections::hash_map::DefaultHasher::new();
+        ptr.hash(&mut h);
+        for (k, s) in mods { k.hash(&mut h); s.hash(&mut h); }
+        let parsed = mods.iter().all(|(_, s)| pyxis::parser::parse_str(s).is_ok());
+        DISTINCT.with(|d| { let mut d = d.borrow_mut(); if d.0.insert(h.finish()) { if parsed { d.1 += 1; } if d.2.len() < 3 && parsed && d.0.len() % 977 == 1 { d.2.push(format!("ptr={ptr}: {}", mods[0].1.replace('\n', " "))); } } });
+    }
     let r = catch_unwind(AssertUnwindSafe(|| -> anyhow::Result<ResolvedSemanticState> {
         let mut st = SemanticState::new(ptr);
         for (path, src) in mods {
@@ -967,7 +979,9 @@ fn main() {
             for f in out.iter().take(25) {
                 println!("{{\"prop\":\"{}\",\"family\":\"{}\",\"ptr\":{},\"input\":\"{}\",\"expected\":\"{}\",\"actual\":\"{}\"}}", prop, f.family, f.ptr, esc(&f.input), esc(&f.expected), esc(&f.actual));
             }
-            println!("{{\"cases\":{},\"failures\":{},\"emitted_files_checked\":{}}}", n, out.len(), emit::EMITTED_FILES.load(std::sync::atomic::Ordering::Relaxed));
+            let (distinct, parsed, samples) = DISTINCT.with(|d| { let d = d.borrow(); (d.0.len(), d.1, d.2.clone()) });
+            println!("{{\"cases\":{},\"failures\":{},\"emitted_files_checked\":{},\"distinct_inputs\":{},\"distinct_inputs_that_parse\":{},\"samples\":[{}]}}", n, out.len(), emit::EMITTED_FILES.load(std::sync::atomic::Ordering::Relaxed), distinct, parsed,
+                samples.iter().map(|x| format!("\"{}\"", esc(x))).collect::<Vec<_>>().join(","));
         }
         Some("run") => {
             let src = std::fs::read_to_string(a.get(2).expect("file")).expect("read");
